@@ -140,7 +140,13 @@ static void part_init(void)
         for (int via_node = 0; via_node < 2; via_node++) {
             CO_OBJ *root = malloc(sizeof(CO_OBJ) * (size_t)(n + 1));
             uint32_t *cnt = calloc((size_t)(n + 1), sizeof(uint32_t));
-            for (int i = 0; i < n; i++) { root[i].Key = CO_KEY(0x3000 + i / 3, i % 3, CO_OBJ_____RW); root[i].Type = (i == failing) ? &CntFailType : &CntType; root[i].Data = (CO_DATA)&cnt[i]; }
+            /* special: which entry carries the key 1010h:0 (its initialisation loads the stored parameters and is therefore moved to the
+             * front by CODictObjInit) - none, the first, a middle or the LAST configured entry; the keys in front of it stay below 1010h */
+            int special = (n == 0) ? -1 : (int)((unsigned)(n * 7 + failing + via_node) % 5u) - 1;      /* -1 none, 0 first, 1/2 middle, 3 last */
+            int spos = special < 0 ? -1 : special == 0 ? 0 : special == 3 ? n - 1 : (n * special) / 3;
+            for (int i = 0; i < n; i++) {
+                uint32_t key = (spos < 0 || i > spos) ? CO_KEY(0x3000 + i / 3, i % 3, CO_OBJ_____RW) : (i == spos) ? CO_KEY(0x1010, 0, CO_OBJ_____RW) : CO_KEY(0x0100 + i / 3, i % 3, CO_OBJ_____RW);
+                root[i].Key = key; root[i].Type = (i == failing) ? &CntFailType : &CntType; root[i].Data = (CO_DATA)&cnt[i]; }
             root[n].Key = 0; root[n].Type = 0; root[n].Data = 0;
             if (via_node) {
                 static CO_TMR_MEM tm[4]; static uint8_t sdobuf[CO_SDO_BUF_BYTE * CO_SSDO_N];
